@@ -100,6 +100,7 @@ func NewMonitors() *Monitors {
 // another property as well is reported under both.
 var alsoViolates = map[string][][2]string{
 	"C13/other-sub":                   {{"C02", "seek-other-sub"}, {"C14", "seek-touched-other-sub"}}, // subscription independence; its rows' retention is its own
+	"C13/snapshot-deacked":            {{"C03", "deacked-by-snapshot-seek"}},                          // the snapshot was taken after the ack: seeking to it rewinds nothing
 	"C06/after-done":                  {{"C03", "dead-lettered-after-ack"}},                           // an acknowledged message is never handed out again
 	"C13/snapshot-not-restored":       {{"C01", "lost-by-seek"}, {"C02", "lost-by-seek"}},             // a never-acknowledged delivery was retired
 	"C13/not-restored":                {{"C01", "lost-by-seek"}},
@@ -880,7 +881,8 @@ func (m *Monitors) Observe(idx int, r *Result) {
 				}
 				m.Counts["snapshot_restore_checks"]++
 			case sr.acked[b.MessageID] && !sr.unacked[b.MessageID] && sub.ID == sr.sub:
-				if a.CompletedAt == nil && retained {
+				// (a delivery whose retention had ended is given fresh retention by the revival: just as visible)
+				if a.CompletedAt == nil && (retained || ns(a.ExpiresAt) > now) {
 					m.fire("C13", "snapshot-deacked", "seek to snapshot %s made delivery %s outstanding although its message was acknowledged before the snapshot was taken", op.Snap, id)
 				}
 				m.Counts["snapshot_acked_checks"]++
